@@ -7,6 +7,7 @@
           implementation's own transcript, and a `STATS` trailer.
 -/
 import Driver.WorldDom
+import SpecsModel.Model.Fault
 import Driver.DispatchDom
 import Driver.DeriveDom
 import Driver.SaveLoadDom
@@ -25,6 +26,9 @@ structure WState where
   mon : WSpec := {}
   monDead : Bool := false
   afterMaint : Bool := false   -- between a maintain that had queued actions and the next mutating op
+  pendingFault : Option Nat := none  -- C19: `fault N` seen, applies to the next operation
+  faults : Nat := 0
+  leaked : Nat := 0
   -- statistics
   cases : Nat := 0
   lines : Nat := 0
@@ -72,6 +76,12 @@ def splitLedger (r : String) : String × Option (List Int) :=
 
 def sortInts (l : List Int) : List Int := l.mergeSort (· ≤ ·)
 
+/-- Under an armed fault both sides must report the panic (reasons differ textually). -/
+def faultAgree (op : WOp) (impl model : WRes) : Bool :=
+  match impl, model with
+  | .panic _, .panic _ => true
+  | a, b => wresAgree op a b
+
 /-- Is this op/result pair "interesting" for coverage accounting? -/
 def noteCoverage (st : WState) (op : WOp) (res : WRes) : WState :=
   let dead := fun (h : Nat) =>
@@ -91,13 +101,43 @@ def noteCoverage (st : WState) (op : WOp) (res : WRes) : WState :=
   | .events l => if l.isEmpty then st else { st with eventsSeen := st.eventsSeen + l.length, caseNontrivial := true }
   | _ => st
 
+/-- `dump k [ i=v … ] k [ … ]` -/
+def parseDump (ts : List String) : Option (List (Nat × List (Nat × Int))) :=
+  let rec go (ts : List String) (cur : Option (Nat × List (Nat × Int))) (acc : List (Nat × List (Nat × Int))) (fuel : Nat) :
+      Option (List (Nat × List (Nat × Int))) :=
+    match fuel with
+    | 0 => none
+    | fuel + 1 =>
+      match ts, cur with
+      | [], none => some acc.reverse
+      | [], some _ => none
+      | "]" :: rest, some (k, l) => go rest none ((k, l.reverse) :: acc) fuel
+      | t :: rest, some (k, l) =>
+        (match t.splitOn "=" with
+         | [i, v] =>
+           (match i.toNat?, parseInt? v with
+            | some i, some v => go rest (some (k, (i, v) :: l)) acc fuel
+            | _, _ => none)
+         | _ => none)
+      | k :: "[" :: rest, none =>
+        (match k.toNat? with
+         | some k => go rest (some (k, [])) acc fuel
+         | none => none)
+      | _, none => none
+  match ts with
+  | "dump" :: rest => go rest none [] (rest.length + 2)
+  | _ => none
+
+def showDump (d : List (Nat × List (Nat × Int))) : String :=
+  " ".intercalate ("dump" :: d.map (fun kv => s!"{kv.1} [ " ++ " ".intercalate (kv.2.map (fun p => s!"{p.1}={p.2}")) ++ " ]"))
+
 def worldLine (st : WState) (line : String) : WState × List String :=
   let (l0, r0) := splitArrow line
   match toks l0 with
   | ["case", id] =>
     let (st, outs) := st.closeCase
     ({ st with caseHash := 7, caseNontrivial := false, caseId := id, lineNo := 0, model := {},
-               diverged := false, pending := [], mon := {}, monDead := false, afterMaint := false, cases := st.cases + 1 }, outs)
+               diverged := false, pending := [], mon := {}, monDead := false, afterMaint := false, pendingFault := none, leaked := st.leaked + st.mon.leaked, cases := st.cases + 1 }, outs)
   | lt =>
     let (r, ledger) := splitLedger r0
     let st := { st with lineNo := st.lineNo + 1, lines := st.lines + 1,
@@ -107,6 +147,32 @@ def worldLine (st : WState) (line : String) : WState × List String :=
       | "in" :: t :: rest => (t.toNat?, rest)
       | _ => (none, lt)
     let l := " ".intercalate lt
+    -- C19 control lines -------------------------------------------------------------------
+    match lt, toks r with
+    | ["fault", n], _ =>
+      (match n.toNat? with
+       | some n => ({ st with pendingFault := some n, faults := st.faults + 1, caseNontrivial := true,
+                              mon := { st.mon with fault := some n } }, [])
+       | none => (st, [s!"BAD case={st.caseId} line={st.lineNo} unparsable fault line"]))
+    | ["dump"], rts =>
+      (match parseDump rts with
+       | none => (st, [s!"BAD case={st.caseId} line={st.lineNo} unparsable dump: {r}"])
+       | some d =>
+         let (st, out1) :=
+           if st.diverged then (st, []) else
+           let md := World.dump st.model
+           if md == d then (st, [])
+           else ({ st with diverged := true, diffs := st.diffs + 1 },
+                 [s!"DIFF case={st.caseId} line={st.lineNo} op=[dump] impl=[{r}] model=[{showDump md}]"])
+         let (st, out2) :=
+           if st.monDead then (st, []) else
+           match st.mon.dumpLine d with
+           | .ok s' => ({ st with mon := s' }, [])
+           | .error why =>
+             ({ st with monDead := true, mons := st.mons + 1 },
+              [s!"MON {why.take 3} case={st.caseId} line={st.lineNo} {why} op=[dump] impl=[{r}]"])
+         (st, out1 ++ out2))
+    | _, _ =>
     match parseWOp lt with
     | none => (st, [s!"BAD case={st.caseId} line={st.lineNo} unparsable op: {l0}"])
     | some op =>
@@ -114,6 +180,7 @@ def worldLine (st : WState) (line : String) : WState × List String :=
       | none => (st, [s!"BAD case={st.caseId} line={st.lineNo} unparsable result: {r} (op {l})"])
       | some ires =>
         let kind := opKind l
+        let faultNow := st.pendingFault
         let st := { st with opKinds := st.opKinds.insert kind (st.opKinds.getD kind 0 + 1) }
         let st := noteCoverage st op ires
         let st := match ledger with
@@ -139,10 +206,12 @@ def worldLine (st : WState) (line : String) : WState × List String :=
                  [s!"DIFF case={st.caseId} line={st.lineNo} op=[{l}] impl=[{r}] model=[{st.pending.length} more nested results expected before this line]"])
               else
               let before := st.model.ledger.length
-              let (m', mres) := World.step modelFuel st.model op
+              let (m', mres) := match st.pendingFault with
+                | some n => World.stepFault modelFuel st.model op n (ledger.getD [])
+                | none => World.step modelFuel st.model op
               let mdestroyed := sortInts (m'.ledger.take (m'.ledger.length - before))
               let m'' := { m' with trace := [] }
-              if !wresAgree op ires mres then
+              if !(if st.pendingFault.isSome then faultAgree op ires mres else wresAgree op ires mres) then
                 ({ st with diverged := true, diffs := st.diffs + 1 },
                  [s!"DIFF case={st.caseId} line={st.lineNo} op=[{l}] impl=[{r}] model=[{showWRes mres}]"])
               else
@@ -185,6 +254,7 @@ def worldLine (st : WState) (line : String) : WState × List String :=
                 else []
               ({ st with monDead := true, mons := st.mons + 1 },
                [s!"MON {tag} case={st.caseId} line={st.lineNo} {why} op=[{shown}] impl=[{r}]"] ++ extra)
+        let st := if nestedTag.isNone && faultNow.isSome then { st with pendingFault := none } else st
         (st, out1 ++ out2)
 
 partial def worldLoop (h : IO.FS.Stream) (st : WState) : IO WState := do
@@ -207,7 +277,7 @@ def main : IO Unit := do
     for o in outs do IO.println o
     let kinds := st.opKinds.toList.mergeSort (fun a b => a.1 ≤ b.1)
     let kindStr := " ".intercalate (kinds.map (fun p => s!"op_{p.1}={p.2}"))
-    IO.println s!"STATS cases={st.cases} lines={st.lines} diffs={st.diffs} mons={st.mons} reuses={st.reuses} err_kills={st.errKills} dead_access={st.deadAccess} nested={st.nested} events={st.eventsSeen} destroyed={st.destroyedSeen} distinct={st.distinct.size} distinct_nontrivial={st.distinctNontrivial} {kindStr}"
+    IO.println s!"STATS cases={st.cases} lines={st.lines} diffs={st.diffs} mons={st.mons} reuses={st.reuses} err_kills={st.errKills} dead_access={st.deadAccess} nested={st.nested} faults={st.faults} leaked={st.leaked + st.mon.leaked} events={st.eventsSeen} destroyed={st.destroyedSeen} distinct={st.distinct.size} distinct_nontrivial={st.distinctNontrivial} {kindStr}"
   | ["domain", "dispatch"] => runDispatch stdin
   | ["domain", "derive"] => runDerive stdin
   | ["domain", "saveload"] => runSaveLoad stdin
